@@ -88,14 +88,10 @@ func (f *Do) Call(s *slip.Scope, args slip.List, depth int) (result slip.Object)
 					if tr.Tag == nil {
 						return tr.Result
 					}
-					if s.Block {
-						return tr
-					}
+					return tr
 				case *GoTo:
-					for i++; i < len(args); i++ {
-						if args[i] == tr.Tag {
-							break
-						}
+					if i = tr.TagIndex(args, 2); i < 0 {
+						return tr
 					}
 				}
 				// Anything other than ReturnResult or GoTo just continues.
